@@ -50,6 +50,9 @@ def generate(rng, tier):
     cases = [{"kind": "kcenters", "metric": "euclidean", "X": [[0], [1], [100]], "dtype": "float64", "n": 3,
               "nclu": 2, "cutoff": None, "init": [0, 1], "form": "func", "ti": False}]   # finding F1, always replayed
     for _ in range(N):
+        if rng.random() < 0.15:
+            cases.append(cc.gen_ti_boundary(rng))
+            continue
         c = cc.gen_kcenters(rng)
         if c["cutoff"] is not None and rng.random() < 0.7:
             radii = _greedy_radii(_pyD(c), c["n"], c["init"])
@@ -143,4 +146,4 @@ def tags(c, out):
     return t
 
 
-ESSENTIAL_TAGS = ["count", "radius", "both", "warm-init", "ti", "estimator-form", "matrix", "euclidean", "manhattan"]
+ESSENTIAL_TAGS = ["near-half-boundary", "count", "radius", "both", "warm-init", "ti", "estimator-form", "matrix", "euclidean", "manhattan"]
